@@ -1,6 +1,7 @@
 package checks
 
 import (
+	"time"
 	"fmt"
 	"strings"
 	"sync"
@@ -315,6 +316,42 @@ func c01(c *Ctx) {
 					sampleOnce.Do(func() {
 						c.R.Sample(map[string]any{"case": caseID, "rpc": t.Svc + "." + t.Method, "request": fmt.Sprint(rq.M), "response": fmt.Sprint(rs.M), "content_type": ct.CT})
 					})
+				}
+			}
+		}
+		// (d) the same server behind a front door that answers 307 / 308 (moved API, http->https hop, load
+		// balancer): the client has to repeat verb and body at the new location; one call per route,
+		// content type and status
+		for _, t := range u.targets {
+			if !strings.HasPrefix(t.CaseID, "deliver/route/base=abs/") && !(c.Thorough() && strings.HasPrefix(t.CaseID, "deliver/route/")) {
+				continue
+			}
+			gs := bySvc[t.Svc]
+			if gs == nil {
+				continue
+			}
+			inMD, outMD := msgDesc(t.Reg, t.In), msgDesc(t.Reg, t.Out)
+			g := &values.Gen{R: c.Rng("c01fd:" + t.CaseID), Opt: values.Opt{URLSafe: true}}
+			for _, status := range []int{307, 308} {
+				_, ev, err := ch.Do(map[string]any{"op": "frontdoor", "id": newID("fd"), "url": gs.URL, "num": status}, 30*time.Second, "frontdoor")
+				if err != nil || ev.Str("url") == "" {
+					c.R.Inconclusive(t.CaseID+"/frontdoor", "front door did not start")
+					continue
+				}
+				front := *gs
+				front.URL = ev.Str("url")
+				for _, ct := range contentTypes {
+					if ct.Label == "octet-stream" {
+						continue
+					}
+					caseID := fmt.Sprintf("%s/frontdoor=%d/%s@full", t.CaseID, status, ct.Label)
+					if !c.Want(caseID) {
+						continue
+					}
+					if !deliver(c, ch, &front, t, caseID, g.Full(inMD, 0, 2), g.Full(outMD, 1, 2), ct.CT, nil) {
+						return
+					}
+					c.R.Count("calls_through_redirecting_front_door", 1)
 				}
 			}
 		}
